@@ -134,7 +134,13 @@ fn build_disk(case: &Value, w: &World, rng: &mut Rng) -> (Value, Value) {
     for f in ["A", "B"] {
         let spec = &case["disk"][f];
         let mut b = wow_mpq::ArchiveBuilder::new()
-            .version(if rng.chance(1, 2) { wow_mpq::FormatVersion::V1 } else { wow_mpq::FormatVersion::V2 })
+            .version(match rng.below(4) {
+                0 => wow_mpq::FormatVersion::V1,
+                1 => wow_mpq::FormatVersion::V2,
+                2 => wow_mpq::FormatVersion::V3,
+                _ => wow_mpq::FormatVersion::V4,
+            })
+            .default_compression(if rng.chance(1, 3) { 0 } else { 0x02 })
             .listfile_option(wow_mpq::ListfileOption::Generate);
         for n in NAMES {
             if let Some(bytes) = spec.get(n).and_then(bytes_of) {
@@ -226,6 +232,24 @@ extern "C" fn enum_cb(name: *const libc::c_char, user: *mut c_void) -> bool {
     true
 }
 
+/// What the Rust API (twin MutableArchive) says about reading `name`: rd_ok / rd_fail (found, unreadable) / rd_none.
+fn twin_read(w: &Mutex<World>, h: usize, name: &str) -> &'static str {
+    let mut g = w.lock().unwrap();
+    match g.twins.get_mut(&h) {
+        None => "-",
+        Some(t) => match t.find_file(&real_name(name)) {
+            Ok(Some(_)) => {
+                if t.read_file(&real_name(name)).is_ok() {
+                    "rd_ok"
+                } else {
+                    "rd_fail"
+                }
+            }
+            _ => "rd_none",
+        },
+    }
+}
+
 /// Execute one abstract call on the real C API.
 fn exec(w: &Mutex<World>, call: &Value) -> Res {
     let f = gs(call, "fn");
@@ -299,6 +323,7 @@ fn exec(w: &Mutex<World>, call: &Value) -> Res {
                 let mut out = Guarded::new(8);
                 let ok = storm::SFileOpenFileEx(hp, cname.as_ptr(), 0, out.ptr() as *mut storm::HANDLE);
                 r.err = last_err();
+                r.rres = twin_read(w, h, name);
                 r.canary = out.intact();
                 if ok {
                     let hv = usize::from_ne_bytes(out.data()[..8].try_into().unwrap());
@@ -313,7 +338,7 @@ fn exec(w: &Mutex<World>, call: &Value) -> Res {
             "ReadFile" => {
                 // n1 = to_read (clamped to 2^31-1 in the log; n2 = 1: really pass 0xFFFFFFFF)
                 let to_read: u32 = if n2 == 1 { u32::MAX } else { n1 as u32 };
-                let cap = (to_read as usize).min(256);
+                let cap = (to_read as usize).min(16384);
                 let mut buf = Guarded::new(cap);
                 let mut got = Guarded::new(4);
                 let ok = storm::SFileReadFile(hp, buf.ptr() as *mut c_void, to_read, got.ptr() as *mut u32, std::ptr::null_mut());
@@ -407,6 +432,7 @@ fn exec(w: &Mutex<World>, call: &Value) -> Res {
                 let cd = CString::new(dest.to_str().unwrap()).unwrap();
                 let ok = storm::SFileExtractFile(hp, cname.as_ptr(), cd.as_ptr(), 0);
                 r.err = last_err();
+                r.rres = twin_read(w, h, name);
                 r.ret = ok as i64;
                 if ok {
                     r.out = json!(std::fs::read(&dest).unwrap_or_default());
@@ -601,7 +627,7 @@ fn run_case(log: &Arc<Log>, idx: usize, case: &Value, limit: Duration) -> bool {
         arch_file: HashMap::new(),
         twins: HashMap::new(),
         src_n: 0,
-        version: if rng.chance(1, 2) { 1 } else { 2 },
+        version: 1 + rng.below(4) as u32,
         compression: if rng.chance(1, 2) { 0 } else { 2 },
     };
     let (disk, order) = build_disk(case, &world, &mut rng);
